@@ -938,7 +938,7 @@ func (m *Meta) LayeredOnto(latest *Meta) *Meta {
 		ti.BtreeSize = lti.BtreeSize
 		ti.Deltas = slc.With(lti.Deltas, Delta{Nrows: dNrows, Size: dSize})
 		for i := range ti.Indexes {
-			ti.Indexes[i].UpdateWith(lti.Indexes[i])
+			ti.Indexes[i] = ti.Indexes[i].UpdateWith(lti.Indexes[i])
 		}
 		ti.lastMod = m.info.Clock
 		// ti.Check()
